@@ -12,12 +12,15 @@ ASSUMPTIONS = [
     "a deserialized value is one of: int, bool, str, None, float, bytes, list, dict (sets, tuples and extension types of the binary codecs are not produced by the configured decoders -- not decided here)",
     "Python's `re` semantics are taken from CPython's own pattern parser (pyvc.regex): `$` also matches before a trailing "
     "newline, \\d / \\s are the Unicode classes; characters are limited to z3's range (<= U+2FFFF)",
+    "an object codec's unserialize() returns a list (of anything) or raises an Exception subclass; "
+    "KeyboardInterrupt-like BaseExceptions are not wrapped and not considered",
     "spec whitespace = the characters with str.isspace() (Unicode White_Space plus the ASCII separators FS GS RS US)",
 ]
-LEVEL = "other"     # 23 of the 25 parse() functions and all validators are proved; Hello / Welcome are bounded; unserialize is not covered
+LEVEL = "other"     # validators, 23 of the 25 parse() functions and the unserialize envelope are proved; Hello / Welcome are bounded
 NOT_COVERED = ["Hello.parse and Welcome.parse as proofs (role objects built with role_cls(**features), custom attributes collected by "
                "iterating the details): a bounded enumeration on the real code stands in, labelled bounded",
-               "Serializer.unserialize: envelope checks, dispatch on the message type code, wrapping of codec exceptions",
+               "Serializer.unserialize with a statistics auto-reset callback configured (a user callback may raise anything), "
+               "and the flatbuffers branch",
                "arbitrary octets through the third-party codecs (json / msgpack / cbor2 / ubjson)",
                "role.py feature classes"]
 MSG = "autobahn.wamp.message"
@@ -104,6 +107,61 @@ def build(reg):
                  ensures=[KW_OK.replace("value", "kwargs"), "result is kwargs"],
                  raises={"ProtocolError": "not (%s)" % KW_OK.replace("value", "kwargs")}, **common)
     parse_units(reg, common)
+    unserialize_unit(reg, common)
+
+
+# ------------------------------------------------------------------------------------------- Serializer.unserialize
+def unserialize_unit(reg, common):
+    """the envelope: the codec's result (anything a codec can return, or any exception) is checked element by element
+    before the per-class parse() is called -- whose precondition (a non-empty list headed by the int the class is
+    registered under) becomes an obligation at the call site; nothing but ProtocolError / InvalidUriError leaves"""
+    SER = "autobahn.wamp.serializer"
+
+    def ext_codec_unserialize(ex, state, args, kwargs, sv):
+        ex.raise_if(state, z3.Bool(fresh_name("codec_raises")), "Exception")        # any exception of the third-party codec
+        return ex.reg.fresh(ex, state, "ulist:@SL", "raw_msgs")   # a list of (scalar | list of anything | dict)
+
+    def ext_map_get(ex, state, args, kwargs, sv):
+        # MESSAGE_TYPE_MAP.get(code): None, or the class registered under that code (lemma below: MAP[c].MESSAGE_TYPE == c)
+        k = ex.reg.fresh_obj(ex, state, "Klass", "klass")
+        state.assume(ex.eq(state, ex.obj(state, k).fields["code"], args[0]))
+        return mk_union([(z3.Bool(fresh_name("unknown_code")), VNone), (z3.BoolVal(True), k)])
+
+    def ext_klass_parse(ex, state, args, kwargs, sv):
+        w = args[0]
+        pre = z3.And(ex.truthy(state, ex.call_builtin(state, "isinstance", [w, VClass("list")])) if False else z3.BoolVal(True))
+        ok = []
+        for g, a in alts_of(w):
+            o = ex.obj(state, a) if isinstance(a, VRef) else None
+            if o is not None and o.kind == "ulist":
+                head = ex.reg.ulist_get(ex, state, o, z3.IntVal(0))
+                is_code = disj([z3.And(g2, h.t == ex.obj(state, sv).fields["code"].t) for g2, h in alts_of(head) if isinstance(h, VInt)])
+                ok.append(z3.And(g, o.n > 0, is_code))
+        ex.oblige("call-requires", state, disj(ok), label="Klass.parse",
+                  info={"clause": "type(wmsg) == list and len(wmsg) > 0 and type(wmsg[0]) == int and wmsg[0] == Klass.MESSAGE_TYPE"})
+        state.assume(disj(ok))
+        ex.raise_if(state, z3.Bool(fresh_name("parse_protocol_error")), "ProtocolError")
+        ex.raise_if(state, z3.Bool(fresh_name("parse_uri_error")), "InvalidUriError")
+        return VOpaque(fresh_name("message"))
+    reg.external("codec.unserialize", ext_codec_unserialize)
+    reg.external("typemap.get", ext_map_get)
+    reg.external("klass.parse", ext_klass_parse)
+    reg.external("math.ceil", lambda ex, state, args, kwargs, sv: VInt(z3.Int(fresh_name("ceil"))))
+    reg.shape("Codec", fields={"BINARY": "bool", "NAME": "str"}, methods={"unserialize": "codec.unserialize"})
+    reg.shape("TypeMap", fields={}, methods={"get": "typemap.get"})
+    reg.shape("Klass", fields={"code": "int"}, methods={"parse": "klass.parse"})
+    reg.shape("Ser", cls=SER + ":Serializer", fields={
+        "_serializer": "obj:Codec", "MESSAGE_TYPE_MAP": "obj:TypeMap", "RATED_MESSAGE_SIZE": "range:1:1000000",
+        "_unserialized_bytes": "int", "_unserialized_messages": "int", "_unserialized_rated_messages": "int",
+        "_autoreset_callback": "none", "_autoreset_duration": "any", "_autoreset_rated_messages": "any", "_stats_reset": "any"})
+    reg.contract(SER + ":Serializer.unserialize", params={"self": "obj:Ser", "payload": "bytes", "isBinary": "opt:bool"},
+                 returns="any", requires=["self._serializer.NAME != 'flatbuffers'"],
+                 modifies=["self._unserialized_bytes", "self._unserialized_messages", "self._unserialized_rated_messages"],
+                 ensures=["type(result) == list", "implies(isBinary is not None, isBinary == self._serializer.BINARY)"],
+                 raises={"ProtocolError": "True", "InvalidUriError": "True"},
+                 loops={"iter:raw_msgs": {"index": "_k", "invariant": ["type(msgs) == list"], "modifies": ["msgs"],
+                                          "vars": {"msgs": "list:any"}, "pure_calls": True}},
+                 **dict(common, spec_module="specs.wampuri"))
 
 
 # ----------------------------------------------------------------------------------------------- per-class parse()
@@ -397,6 +455,66 @@ print(json.dumps({"cases": n, "bad": uniq[:12], "n_bad": len(bad)}))
 '''
 
 
+_UNSER_HARNESS = r'''
+import json
+import txaio; txaio.use_asyncio()
+from autobahn.wamp.serializer import Serializer
+from autobahn.wamp.exception import ProtocolError, InvalidUriError
+
+class Codec:
+    NAME = "stub"; BINARY = True
+    def __init__(self, result): self.result = result
+    def unserialize(self, payload):
+        if isinstance(self.result, BaseException): raise self.result
+        return self.result
+
+GOOD = [33, 1, 2]
+cases = [("one valid message", [GOOD], True, 1), ("two valid messages", [GOOD, [35, 5]], True, 2), ("no message", [], True, 0),
+         ("empty message", [[]], True, None), ("message is a dict", [{}], True, None), ("message is a str", ["x"], True, None),
+         ("message is None", [None], True, None), ("type code is a str", [["33", 1, 2]], True, None),
+         ("type code is a float", [[33.0, 1, 2]], True, None), ("type code is None", [[None]], True, None),
+         ("type code is a list", [[[33], 1, 2]], True, None), ("unknown type code", [[9999, 1]], True, None),
+         ("type code is a bool", [[True, 1, {}]], True, None), ("valid then empty", [GOOD, []], True, None),
+         ("codec raises ValueError", ValueError("x"), True, None), ("codec raises KeyError", KeyError("x"), True, None),
+         ("codec raises RecursionError", RecursionError("x"), True, None), ("codec raises TypeError", TypeError("x"), True, None),
+         ("binary flag mismatch", [GOOD], False, None), ("binary flag not given", [GOOD], None, 1)]
+bad = []
+for name, result, is_binary, expect in cases:
+    s = Serializer(Codec(result))
+    try:
+        msgs = s.unserialize(b"payload", is_binary)
+    except (ProtocolError, InvalidUriError):
+        if expect is not None:
+            bad.append({"case": name, "problem": "rejected a valid envelope"})
+        continue
+    except BaseException as e:
+        bad.append({"case": name, "problem": "escaped: %s" % type(e).__name__}); continue
+    if expect is None:
+        bad.append({"case": name, "problem": "accepted (%d messages)" % len(msgs)})
+    elif len(msgs) != expect or not all(m.MESSAGE_TYPE == r[0] for m, r in zip(msgs, result)):
+        bad.append({"case": name, "problem": "wrong messages %r" % (msgs,)})
+print(json.dumps({"cases": len(cases), "bad": bad}))
+'''
+
+_MAP_HARNESS = r'''
+import json
+import txaio; txaio.use_asyncio()
+from autobahn.wamp import message as M
+from autobahn.wamp.serializer import Serializer
+under_contract = set(CLASSES)
+bad = []
+for code, cls in Serializer.MESSAGE_TYPE_MAP.items():
+    if type(code) is not int or cls.MESSAGE_TYPE != code:
+        bad.append("code %r -> %s with MESSAGE_TYPE %r" % (code, cls.__name__, cls.MESSAGE_TYPE))
+    if cls.__name__ not in under_contract or getattr(M, cls.__name__) is not cls:
+        bad.append("%s.parse is not among the parse() functions decided by this check" % cls.__name__)
+print(json.dumps({"n": len(Serializer.MESSAGE_TYPE_MAP), "bad": bad}))
+'''.replace("CLASSES", repr(sorted(["Hello", "Welcome", "Abort", "Challenge", "Authenticate", "Goodbye", "Error", "Publish", "Published",
+                                     "Subscribe", "Subscribed", "Unsubscribe", "Unsubscribed", "Event", "EventReceived", "Call",
+                                     "Cancel", "Result", "Register", "Registered", "Unregister", "Unregistered", "Invocation",
+                                     "Interrupt", "Yield"])))
+
+
 def extra_checks(tier, seed):
     """Hello.parse / Welcome.parse build role objects from untrusted feature dicts (`role_cls(**features)`) and collect custom
     attributes by iterating the details: outside what the verifier models.  A *bounded* stand-in on the real code: every
@@ -409,6 +527,14 @@ def extra_checks(tier, seed):
     ok = isinstance(out, dict) and out.get("cases", 0) > 1000 and out.get("bad") == []
     crashed = not isinstance(out, dict) or "cases" not in out
     res = []
+    # the dispatch table of Serializer.unserialize, as assumed by the unit above: finite, checked exhaustively
+    t1 = time.time()
+    tbl = Rp.run_py(_MAP_HARNESS, timeout=60)
+    good = isinstance(tbl, dict) and tbl.get("bad") == [] and tbl.get("n", 0) >= 25
+    res.append({"name": "C08/lemma/message-type-map-registers-each-class-under-its-own-code", "kind": "lemma-finite",
+                "status": "proved" if good else "refuted", "backend": "enumeration(%s entries, exhaustive)" % (tbl.get("n") if isinstance(tbl, dict) else "?"),
+                "time": round(time.time() - t1, 2), "info": {"detail": str(tbl)[:400]},
+                "replay": {"reproduced": not good, "observed": tbl}})
     if crashed:
         return [{"name": "C08/bounded/hello-welcome-parse", "kind": "bounded", "status": "unknown", "bounded": True,
                  "backend": "enumeration on the real code", "time": round(time.time() - t0, 2), "reason": "harness error: %s" % str(out)[:300],
@@ -604,6 +730,13 @@ def replay(o):
     unit = o.get("unit") or o.get("name", "")
     fn = "id" if "check_or_raise_id" in unit else ("uri" if "check_or_raise_uri" in unit else
                                                     ("realm" if "realm_name" in unit else None))
+    if fn is None and "Serializer.unserialize" in unit:
+        from pyvc import replaylib as Rp
+        out = Rp.run_py(_UNSER_HARNESS, timeout=120)
+        bad = out.get("bad") if isinstance(out, dict) else None
+        return {"reproduced": bool(bad), "cases": (bad or [])[:4], "observed": None if bad else out,
+                "detail": "envelope boundary cases (codec results of every shape, codec exceptions, binary-flag mismatch) on the "
+                          "real Serializer with a stub codec; finds real failing inputs only, proves nothing"}
     if fn is None and ".parse" in unit:
         return _replay_parse(o, unit)
     if fn is None and ("check_or_raise_extra" in unit or "_validate_kwargs" in unit):
